@@ -2,6 +2,7 @@
    the hypotheses of the theorems; the shipped code (and the code lacking any one repair)
    violates the property on concrete inputs. *)
 From V.model Require Import Base Deb822Lex Deb822Parse Grammar Lossy LossySpec Deb822Edit LiveDoc Deb822Wrap WrapSpec.
+From V.model Require Export WrapSpecInst.
 From V.proofs Require Import BaseP GrammarLexP GrammarParseP GrammarAccP Deb822EditP LiveDocP LiveParaP Deb822WrapP.
 
 (* ---------------------------------------------------------------- comparators *)
@@ -22,16 +23,11 @@ Proof.
   intros a b H. destruct a as [x|], b as [y|]; cbn [opt_cmp] in *; try discriminate. apply str_cmp_consistent. exact H.
 Qed.
 
-(* |a, b| a.key().cmp(&b.key()) *)
-Definition name_cmp : pair_cmp := fun a b => str_cmp (fst a) (fst b).
 Lemma by_name_agrees : ecmp_agrees (Some by_name) (Some name_cmp).
 Proof. intros f g. unfold by_name, name_cmp. rewrite !entry_key_field. reflexivity. Qed.
 Lemma name_cmp_consistent : pair_cmp_consistent (Some name_cmp).
 Proof. intros a b H. unfold name_cmp in *. apply str_cmp_consistent. exact H. Qed.
 
-(* by the value of the first field *)
-Definition first_value_of (p : list (str * str)) : option str := match p with (_, v) :: _ => Some v | [] => None end.
-Definition first_value_cmp : para_cmp := fun a b => opt_cmp (first_value_of a) (first_value_of b).
 Lemma items_lpara its : items (lblock_tree (LPara its)) = flat_map item_pairs its.
 Proof. cbn [lblock_tree]. apply pitems_item_elems. Qed.
 Lemma by_first_value_agrees : pcmp_agrees (Some by_first_value) (Some first_value_cmp).
@@ -39,14 +35,6 @@ Proof. intros x y. unfold by_first_value, first_value_cmp, first_value. rewrite 
 Lemma first_value_cmp_consistent : para_cmp_consistent (Some first_value_cmp).
 Proof. intros a b H. unfold first_value_cmp in *. apply opt_cmp_consistent. exact H. Qed.
 
-(* the order of Control::wrap_and_sort *)
-Definition control_cmp : para_cmp := fun a b =>
-  let a_is_source := is_some (spec_get a Lit.k_Source) in
-  let b_is_source := is_some (spec_get b Lit.k_Source) in
-  if a_is_source && negb b_is_source then Lt
-  else if negb a_is_source && b_is_source then Gt
-  else if a_is_source && b_is_source then opt_cmp (spec_get a Lit.k_Source) (spec_get b Lit.k_Source)
-  else opt_cmp (spec_get a Lit.k_Package) (spec_get b Lit.k_Package).
 Lemma control_order_agrees : pcmp_agrees (Some control_order) (Some control_cmp).
 Proof. intros x y. unfold control_order, control_cmp. rewrite !get_items, !items_lpara. reflexivity. Qed.
 Lemma control_cmp_consistent : para_cmp_consistent (Some control_cmp).
@@ -59,44 +47,8 @@ Qed.
 (* it looks at the first Source / Package field only: it does not depend on the order of the other
    fields, but it does on the order of fields of the same name *)
 
-(* ---------------------------------------------------------------- witnesses: the code before the repairs *)
-Module W.
-  Import Coq.Strings.String.
-  Local Open Scope string_scope.
-  Definition s := Lit.s2l.
-  Definition c1 : wcfg := mk_wcfg (Spaces 1) false None.
-  Definition c1e : wcfg := mk_wcfg (Spaces 1) true None.
-  Definition fA := mk_field (s "A") (s " ") (s "b") [] true.
-  Definition fB := mk_field (s "B") (s " ") (s "c") [] true.
-  (* "A: b\n# c\nB: c\n" *)
-  Definition d_comment : doc := [BPara fA [IComment (s " c") true; IField fB]].
-  (* "# c\nA: b\n" *)
-  Definition d_top_comment : doc := [BComment (s " c") true; BPara fA []].
-  (* "A: #x\n b\n" *)
-  Definition d_hash : doc := [BPara (mk_field (s "A") (s " ") (s "#x") [(s " ", s "b")] true) []].
-  (* "B: z\n\nA: d"  (no final newline) *)
-  Definition d_unterminated : doc :=
-    [BPara (mk_field (s "B") (s " ") (s "z") [] true) []; BBlank; BPara (mk_field (s "A") (s " ") (s "d") [] false) []].
-  (* "A: b;B: c\n" *)
-  Definition d_semi : doc := [BPara (mk_field (s "A") (s " ") (s "b;B: c") [] true) []].
-  Definition semi_lexed : list (list (str * str)) := [[(s "A", (s "b" ++ [10%N] ++ s "c")%list)]].
-  Definition semi_lines : list (list (str * str)) := [[(s "A", (s "b" ++ [10%N] ++ s "B: c")%list)]].
-  Definition bca : str := Eval compute in s "Build-Conflicts-Arch".
-End W.
 
-Definition no_para_nl : variant := mk_variant false true true true true true.
-Definition no_doc_lines : variant := mk_variant true false true true true true.
-Definition no_fmt_lines : variant := mk_variant true true false true true true.
-Definition no_hash : variant := mk_variant true true true false true true.
-Definition no_terminate : variant := mk_variant true true true true false true.
-Definition no_typo : variant := mk_variant true true true true true false.
 
-(* the printed result does not re-read to what the returned object reports *)
-Definition reread_differs (V : variant) (c : wcfg) psort (d : doc) : Prop :=
-  exists t1 t', std_ws V c psort None None (tree_of d) = Ok t1 /\ from_str (text t1) = Ok t' /\ doc_items t' <> doc_items t1.
-(* a second application changes the result *)
-Definition second_differs (V : variant) (c : wcfg) psort (d : doc) : Prop :=
-  exists t1 t2, std_ws V c psort None None (tree_of d) = Ok t1 /\ std_ws V c psort None None t1 = Ok t2 /\ text t2 <> text t1.
 
 Lemma reread_refutes V c psort pcmp d :
   ind_ok c = true -> pcmp_agrees psort pcmp -> para_cmp_consistent pcmp -> wf_doc d = true ->
@@ -136,9 +88,6 @@ Proof. eexists. eexists. split; [vm_compute; reflexivity|]. split; [vm_compute; 
 Lemma no_hash_hash_line_lost : reread_differs no_hash W.c1e None W.d_hash.
 Proof. eexists. eexists. split; [vm_compute; reflexivity|]. split; [vm_compute; reflexivity|]. vm_compute. discriminate. Qed.
 
-(* new: a paragraph whose last line is unterminated is fused with the one it is moved in front of
-   (here the paragraph function leaves the paragraphs as they are) *)
-Definition sort_only (V : variant) (psort : option (tree -> tree -> comparison)) (t : tree) : res tree := doc_ws V psort None t.
 Lemma shipped_moved_paragraph_fused :
   exists t1 t', sort_only shipped (Some by_first_value) (tree_of W.d_unterminated) = Ok t1 /\
                 from_str (text t1) = Ok t' /\ length (doc_items t1) = 2 /\ length (doc_items t') = 1.
@@ -152,11 +101,6 @@ Lemma fixed_moved_paragraph_kept :
                 from_str (text t1) = Ok t' /\ doc_items t' = doc_items t1 /\ length (doc_items t1) = 2.
 Proof. eexists. eexists. split; [vm_compute; reflexivity|]. split; [vm_compute; reflexivity|]. split; vm_compute; reflexivity. Qed.
 
-(* row 28: the continuation lines of a formatter's output are lexed as field names: the returned
-   object reports "b\nc" where the formatter returned "b\nB: c" (and the text re-reads as that) *)
-Definition semi (k v : str) : str := map (fun ch => if (ch =? 59)%N then 10%N else ch) v.
-Definition fmt_reports (V : variant) : res (list (list (str * str))) :=
-  rmap doc_items (std_ws V W.c1 None None (Some (pure_fmt semi)) (tree_of W.d_semi)).
 Lemma shipped_formatter_lines : fmt_reports shipped = Ok W.semi_lexed.
 Proof. vm_compute. reflexivity. Qed.
 Lemma no_fmt_lines_formatter_lines : fmt_reports no_fmt_lines = Ok W.semi_lexed.
@@ -183,8 +127,6 @@ Proof. apply (second_refutes no_doc_lines W.c1 None None W.d_top_comment); try r
 Theorem C07_no_hash_refuted_proof : ~ C07_full no_hash.
 Proof. apply (reread_refutes no_hash W.c1e None None W.d_hash); try reflexivity; try exact I. exact no_hash_hash_line_lost. Qed.
 
-(* ---------------------------------------------------------------- the identity formatter *)
-Definition fmt_id (k v : str) : str := v.
 
 Lemma split_lf_go_noeol l : forall X acc, no_eol l = true -> split_lf_go (l ++ X) acc = split_lf_go X (acc ++ l).
 Proof.
@@ -375,13 +317,8 @@ Proof.
   rewrite (IH false). reflexivity.
 Qed.
 
-(* the control formatter, for a relations formatter that returns *)
-Definition ctl_fmt (r : str -> str) (name value : str) : str :=
-  if str_eqb name Lit.k_Uploaders then fmt_uploaders value
-  else if existsb (str_eqb name) (Lit.relation_fields true) then r value
-  else value.
-Lemma format_field_pure r k v : format_field fixed (fun x => Ok (r x)) k v = Ok (ctl_fmt r k v).
-Proof. unfold format_field, ctl_fmt. cbn [v_typo fixed]. destruct (str_eqb k Lit.k_Uploaders); [reflexivity|]. destruct (existsb (str_eqb k) (Lit.relation_fields true)); reflexivity. Qed.
+Lemma format_field_pure r k v : format_field fixed (rel_arm fixed (fun x => Ok (r x))) k v = Ok (ctl_fmt r k v).
+Proof. unfold format_field, ctl_fmt, rel_arm. cbn [v_typo v_upl_hash v_rel_keep fixed]. destruct (str_eqb k Lit.k_Uploaders); [reflexivity|]. destruct (existsb (str_eqb k) (Lit.relation_fields true)); reflexivity. Qed.
 
 (* Control::wrap_and_sort is the deb822-level reformatting in control order, no field sort, with the control formatter *)
 Theorem control_ws_is_std c r t :
@@ -393,24 +330,22 @@ Proof.
   intros p. unfold control_para_ws. apply para_ws_ext. intros k v. apply format_field_pure.
 Qed.
 
-(* a relationship field that the relations reader rejects makes it panic (format_field unwraps) *)
-Module WC.
-  Import Coq.Strings.String.
-  Local Open Scope string_scope.
-  Definition d_bad_relation : doc := [BPara (mk_field (Lit.s2l "Depends") (Lit.s2l " ") (Lit.s2l "a (= 1") [] true) []].
-End WC.
+Lemma uploaders_hash_piece :
+  ctl_reports no_upl_hash WC.d_upl_hash = Ok (WC.upl_hash_reported, Ok WC.upl_hash_reread) /\
+  ctl_reports fixed WC.d_upl_hash = Ok (WC.upl_hash_kept, Ok WC.upl_hash_kept).
+Proof. split; vm_compute; reflexivity. Qed.
+(* ... without C07-22; with it the field is left as it is *)
 Lemma control_unparsable_relation_panics :
-  control_ws fixed (fun _ => Panic 20) (Spaces 1) false None (tree_of WC.d_bad_relation) = Panic 20.
+  control_ws no_rel_keep (fun _ => Panic 20) (Spaces 1) false None (tree_of WC.d_bad_relation) = Panic 20.
 Proof. vm_compute. reflexivity. Qed.
+Lemma control_unparsable_relation_kept_ex :
+  control_ws fixed (fun _ => Panic 20) (Spaces 1) false None (tree_of WC.d_bad_relation) = Ok (tree_of WC.d_bad_relation).
+Proof. vm_compute. reflexivity. Qed.
+Lemma rel_arm_kept rel v : rel v = Panic 20 -> rel_arm fixed rel v = Ok v.
+Proof. intros H. unfold rel_arm. cbn [v_rel_keep fixed]. rewrite H. reflexivity. Qed.
+Lemma rel_arm_ok rel v o : rel v = Ok o -> rel_arm fixed rel v = Ok o.
+Proof. intros H. unfold rel_arm. cbn [v_rel_keep fixed]. rewrite H. reflexivity. Qed.
 
-(* ---------------------------------------------------------------- formatters that absorb the re-layout *)
-(* the formatter gives the same output when its own output comes back with a blank or a line break
-   in front (which is all the re-layout of a value adds), and never starts its output with one *)
-Definition lead_char (ch : N) : bool := is_indent ch || (ch =? 10)%N.
-Definition absorbing (g : str -> str -> str) : Prop :=
-  forall name v lead, forallb lead_char lead = true -> g name (lead ++ g name v) = g name v.
-Definition no_lead (g : str -> str -> str) : Prop :=
-  forall name v, match g name v with [] => True | ch :: _ => lead_char ch = false end.
 
 Lemma span_indent_no_lead o : match o with [] => True | ch :: _ => lead_char ch = false end -> span is_indent o = ([], o).
 Proof.
@@ -620,6 +555,57 @@ Proof.
   destruct r as [|p2 r2].
   - cbn [join]. destruct p as [|ch p']; [exact I|]. apply Hnl. exact Hp.
   - rewrite join_cons2. destruct p as [|ch p']; [reflexivity|]. cbn [app]. apply Hnl. exact Hp.
+Qed.
+
+(* ---- the Uploaders arm with C07-21 (a piece that starts with '#' stays on the line before it) ---- *)
+Definition lch (q : str) : N := if starts_with_hash q then 32%N else 10%N.
+Lemma upl_sep_lch q : upl_sep q = [44%N; lch q].
+Proof. unfold upl_sep, lch. destruct (starts_with_hash q); reflexivity. Qed.
+Lemma join_upl_cons2 p p2 r : join_upl (p :: p2 :: r) = p ++ upl_sep p2 ++ join_upl (p2 :: r).
+Proof. reflexivity. Qed.
+
+Lemma split_join_upl ps : forall lead, ps <> [] -> no_char 44 lead = true -> Forall (fun p => no_char 44 p = true) ps ->
+  split_on 44 (lead ++ join_upl ps) =
+  match ps with [] => [] | p :: rest => (lead ++ p) :: map (fun q => lch q :: q) rest end.
+Proof.
+  induction ps as [|p r IH]; intros lead Hne Hl Hps; [congruence|]. inversion Hps as [|? ? Hp Hr]; subst.
+  destruct r as [|p2 r2].
+  - cbn [join_upl map]. apply split_on_single. unfold no_char in *. rewrite forallb_app, Hl, Hp. reflexivity.
+  - rewrite join_upl_cons2, upl_sep_lch. cbn [app]. rewrite app_assoc, split_on_cons.
+    + f_equal. change (lch p2 :: join_upl (p2 :: r2)) with ([lch p2] ++ join_upl (p2 :: r2)).
+      rewrite (IH [lch p2] ltac:(discriminate)); [reflexivity| |exact Hr]. unfold lch. destruct (starts_with_hash p2); reflexivity.
+    + unfold no_char in *. rewrite forallb_app, Hl, Hp. reflexivity.
+Qed.
+
+Theorem uploaders_h_absorbing : absorbing (fun _ v => fmt_uploaders_h v).
+Proof.
+  intros _ v lead Hlead. destruct (lead_all lead Hlead) as [Hw Hc].
+  unfold fmt_uploaders_h at 1.
+  set (ps := map trim (split_on 44 v)).
+  assert (Hne : ps <> []) by (unfold ps; pose proof (split_on_nonempty 44 v); destruct (split_on 44 v); [congruence|discriminate]).
+  assert (Hnc : Forall (fun p => no_char 44 p = true) ps).
+  { unfold ps. apply Forall_forall. intros p Hp. apply in_map_iff in Hp. destruct Hp as (q & <- & Hq).
+    apply trim_no_char. apply (split_on_pieces 44 v q Hq). }
+  assert (Htr : Forall trimmed ps).
+  { unfold ps. apply Forall_forall. intros p Hp. apply in_map_iff in Hp. destruct Hp as (q & <- & _). apply trim_trimmed. }
+  change (fmt_uploaders_h v) with (join_upl ps). rewrite (split_join_upl ps lead Hne Hc Hnc).
+  destruct ps as [|p rest]; [congruence|]. inversion Htr as [|? ? Hp Hrest]; subst. cbn [map].
+  rewrite (trim_absorbs lead p Hw Hp). f_equal. f_equal. rewrite map_map.
+  rewrite <- (map_id rest) at 2. apply map_ext_in. intros q Hq. rewrite Forall_forall in Hrest.
+  apply (trim_absorbs [lch q] q); [unfold lch; destruct (starts_with_hash q); reflexivity|exact (Hrest q Hq)].
+Qed.
+
+Theorem uploaders_h_no_lead : no_lead (fun _ v => fmt_uploaders_h v).
+Proof.
+  intros _ v. unfold fmt_uploaders_h.
+  assert (Htr : Forall trimmed (map trim (split_on 44 v))).
+  { apply Forall_forall. intros p Hp. apply in_map_iff in Hp. destruct Hp as (q & <- & _). apply trim_trimmed. }
+  assert (Hnl : forall ch, is_whitespace ch = false -> lead_char ch = false).
+  { intros ch Hc. destruct (lead_char ch) eqn:E; [|reflexivity]. destruct (lead_char_ws ch E) as [Hw _]. congruence. }
+  destruct (map trim (split_on 44 v)) as [|p r]; [exact I|]. inversion Htr as [|? ? [Hp _] _]; subst.
+  destruct r as [|p2 r2].
+  - cbn [join_upl]. destruct p as [|ch p']; [exact I|]. apply Hnl. exact Hp.
+  - rewrite join_upl_cons2, upl_sep_lch. destruct p as [|ch p']; [reflexivity|]. cbn [app]. apply Hnl. exact Hp.
 Qed.
 
 (* a second application changes nothing for an absorbing formatter, comparators on names *)
